@@ -20,6 +20,7 @@ from vlib import log
 
 SPECDIR = os.path.join(vlib.SPEC, "fn")
 NINJA = shutil.which("ninja") or "/usr/bin/ninja"
+DEV = set(filter(None, os.environ.get("C17_DEV", "").split(",")))   # development only: "nosim", "noninja" (mutation runs)
 RULEVARS = ["command", "description", "depfile", "deps", "rspfile", "rspfile_content", "generator", "restat", "pool"]
 
 # ----------------------------------------------------------------------------- the bounded families
@@ -427,7 +428,8 @@ def compare_llbuild(exp, rc, out, err, ctx):
     # --- known classes first (so that their consequences are not reported under generic names)
     s16 = ctx["crlf_cont"] and "invalid '$'-escape" in diag
     if s16: add("C17 crlf-continuation", "`$` followed by CR LF (a line continuation in a CRLF manifest) is rejected: %s" % diag.strip().split("\n")[0])
-    s15 = False
+    s15 = "unknown rule" in diag and any(e["up"] for e in exp["cmds"])
+    if s15: add("C17 subninja-parent-rules", "a build statement in a subninja file names a rule of the including file (or the built-in phony) and it is not found: %s" % diag.strip().split("\n")[0])
     # --- bindings
     if act["bindings"] != exp["bindings"] and not s16:
         add("C17 top-level-bindings", "top-level bindings are %r, the rules give %r" % (act["bindings"], exp["bindings"]))
@@ -445,21 +447,24 @@ def compare_llbuild(exp, rc, out, err, ctx):
             else:
                 if not s16: add("C17 outputs", "no build statement with outputs %r was loaded (loaded: %r)" % (e["outs"], [c["outs"] for c in act["cmds"]]))
                 continue
+        s14 = a["outs"] != e["outs"]
         for cls in ("ins", "imps", "oos"):
             if a[cls] != e[cls]:
                 if a[cls] == e["fsp"][cls]:
+                    s14 = True
                     add("C17 build-line-scope", "%s of `build %s` were expanded without the build statement's own bindings: %r instead of %r" % (cls, name, a[cls], e[cls]))
                 elif not s16:
                     add("C17 inputs-" + cls, "`build %s`: %s are %r, expected %r (all: in %r implicit %r order-only %r)" % (name, cls, a[cls], e[cls], a["ins"], a["imps"], a["oos"]))
         if a["rule"] != e["rule"]:
-            if a["rule"] == "phony" and e["up"] and "unknown rule" in diag:
-                s15 = True
-                add("C17 subninja-parent-rules", "`build %s: %s` in a subninja file: the rule of the including file is not found (%s)" % (name, e["rule"], diag.strip().split("\n")[0]))
+            if a["rule"] == "phony" and e["up"] and s15: pass
             else:
                 add("C17 rule", "`build %s` uses rule %r, expected %r" % (name, a["rule"], e["rule"]))
             continue
         if e["rule"] == "phony" or e["excl"] or s16: continue
         at = a["attrs"]
+        if s14:   # already reported: compare the rule variables with the path lists that were actually loaded
+            fix = lambda segs: [s if s[0] == "s" else ("p", s[1], a["outs"] if s[2] == e["outs"] else (a["ins"] if s[2] == e["ins"] else s[2])) for s in segs]
+            e = dict(e); e["vals"] = {k: fix(v) for k, v in e["vals"].items()}
         for k, quoting in (("command", "sh"), ("description", "any")):
             if not match_segs(e["vals"][k], at.get(k, b""), quoting, ctx["words"] if k == "command" else None):
                 raw = seg_raw(e["vals"][k])
@@ -480,11 +485,11 @@ def compare_llbuild(exp, rc, out, err, ctx):
     # --- default targets, pools
     if exp["defaults"]:
         want = b"default " + b" ".join(b'"' + p + b'"' for p in sorted(exp["defaults"]))
-        if act["defaults_line"] != want: add("C17 default", "default targets line %r, expected %r" % (act["defaults_line"], want))
-    elif act["defaults_line"] is not None: add("C17 default", "unexpected default targets %r" % act["defaults_line"])
+        if act["defaults_line"] != want: add("C17 default-paths", "default targets line %r, expected %r%s" % (act["defaults_line"], want, (" (" + diag.strip().split("\n")[0] + ")") if diag else ""))
+    elif act["defaults_line"] is not None: add("C17 default-paths", "unexpected default targets %r" % act["defaults_line"])
     for n, depth in exp["pools"]:
         if act["pools"].get(n) != depth: add("C17 pool-decl", "pool %s has depth %r, expected %r" % (n, act["pools"].get(n), depth))
-    if err and not bad:
+    if err and not bad and not s15:
         add("C17 diagnostic", "a diagnostic is reported for a valid manifest: %s" % diag.strip().split("\n")[0])
     return bad
 
@@ -578,7 +583,7 @@ def do_job(job):
     if res["bad"]:
         res["files"] = {k.decode("latin-1"): v.decode("latin-1") for k, v in files.items()}
         res["stdout"] = out.decode("latin-1"); res["stderr"] = err.decode("latin-1")
-    if job["ninja"]:
+    if job["ninja"] and "noninja" not in DEV:
         res["ran_ninja"] = True
         res["specbad"] = check_ninja(exp, d, res["words"])
         if job.get("swap"):
@@ -591,17 +596,56 @@ def do_job(job):
             shutil.rmtree(d2, ignore_errors=True)
         if res["specbad"]:
             res["files"] = {k.decode("latin-1"): v.decode("latin-1") for k, v in files.items()}
-    if not res["bad"] and not res["specbad"]: shutil.rmtree(d, ignore_errors=True)
     res["words"] = list(set(res["words"]))
+    res["dir"] = d
+    # what the in-process driver must report for the response-file attributes (checked per chunk)
+    res["rsp"] = None if res["bad"] else [(c["outs"][0], c["vals"]["rspfile"], c["vals"]["rspfile_content"]) for c in exp["cmds"] if c["rule"] != "phony" and not c["excl"]]
     return res
 
+def check_rsp(results, driver):
+    """rspfile / rspfile_content through harness/ninja_load_driver (one process per chunk)"""
+    todo = [r for r in results if r.get("rsp")]
+    if not todo: return
+    inp = "".join(r["dir"].encode().hex() + "\n" for r in todo)
+    p = subprocess.run([driver], input=inp.encode(), capture_output=True, timeout=600)
+    blocks = p.stdout.split(b"E\n")
+    if p.returncode != 0 or len(blocks) != len(todo) + 1:
+        raise RuntimeError("ninja_load_driver failed (rc %s, %d blocks for %d manifests): %s" % (p.returncode, len(blocks) - 1, len(todo), p.stderr[-300:]))
+    unhex = lambda h: b"" if h == b"-" else bytes.fromhex(h.decode())
+    for r, blk in zip(todo, blocks):
+        got = {}
+        for ln in blk.split(b"\n"):
+            f = ln.split(b" ")
+            if f[0] == b"C": got[unhex(f[1])] = (unhex(f[2]), unhex(f[3]))
+        cwd = os.path.normpath(r["dir"]).encode() + b"/"
+        for out0, rsp, content in r["rsp"]:
+            a = got.get(out0)
+            if a is None: r["bad"].append(("C17 rspfile", "in-process load: no build statement with first output %r" % out0)); continue
+            if not rsp:
+                if a[0]: r["bad"].append(("C17 rspfile", "`build %s`: rspfile is %r, the rules give none" % (out0.decode("latin-1"), a[0])))
+                continue
+            if not (a[0].startswith(cwd) and match_segs(rsp, a[0][len(cwd):], "any")):
+                r["bad"].append(("C17 rspfile", "`build %s`: rspfile is %r, the rules give %r (in the working directory)" % (out0.decode("latin-1"), a[0], seg_raw(rsp))))
+            if not match_segs(content, a[1], "any"):
+                r["bad"].append(("C17 rspfile_content", "`build %s`: rspfile_content is %r, the rules give %r" % (out0.decode("latin-1"), a[1], seg_raw(content))))
+
 def do_chunk(jobs):
+    import traceback
     out = []
     for j in jobs:
         try: out.append(do_job(j))
         except Exception as e:
-            import traceback
             out.append(dict(id=j["id"], bad=[], specbad=[], ran_ninja=False, error="%s\n%s" % (e, traceback.format_exc()[-1500:])))
+    try:
+        if jobs and jobs[0].get("driver"): check_rsp(out, jobs[0]["driver"])
+    except Exception as e:
+        out[0]["error"] = "%s\n%s" % (e, traceback.format_exc()[-1500:])
+    for r, j in zip(out, jobs):
+        if r.get("bad") and "files" not in r and r.get("dir"):
+            V, files = render(j["case"], j["vseed"], j["style"])
+            r["files"] = {k.decode("latin-1"): v.decode("latin-1") for k, v in files.items()}; r["stdout"] = ""; r["stderr"] = ""
+        if r.get("dir") and not r.get("bad") and not r.get("specbad"): shutil.rmtree(r["dir"], ignore_errors=True)
+        r.pop("rsp", None)
     return out
 
 def swappable(case):
@@ -640,7 +684,8 @@ def enumerate_cases(tier, seed, wd):
         info[name] = dict(distinct=p["distinct"], generated=p["states"], cases=len(cases), wall=round(p["wall"], 1), actions=p["actions"])
         for c in cases: allcases.setdefault(ast_key(c), c)
     # random simulation of the large family: each run draws its own sub-alphabets (so that the successor sets stay small)
-    nruns, ntraces, depth = (6, 80, 10) if tier == "quick" else (16, 1500, 10)
+    nruns, ntraces, depth = (6, 60, 10) if tier == "quick" else (16, 1500, 10)
+    if "nosim" in DEV: nruns = 0
     rng = random.Random(seed)
     def sub(n, k): return "{" + ",".join(str(i) for i in sorted(rng.sample(range(1, n + 1), k))) + "}"
     simcfgs = []
@@ -660,7 +705,7 @@ def enumerate_cases(tier, seed, wd):
     info["simulation"] = dict(traces=nsim, depth=depth, generated=simstates, new_cases=simcases, seed=seed)
     return list(allcases.values()), info
 
-def make_jobs(cases, tier, seed, llbuild, wd):
+def make_jobs(cases, tier, seed, llbuild, wd, driver=None):
     rng = random.Random(seed)
     jobs = []
     nvar = 2 if tier == "quick" else 4
@@ -668,7 +713,7 @@ def make_jobs(cases, tier, seed, llbuild, wd):
         for v in range(nvar):
             style = "plain" if v == 0 else "rich"
             j = dict(id=len(jobs), ci=ci, case=c, vseed=rng.randrange(1 << 30), style=style, llbuild=llbuild, wd=wd,
-                     ninja=(v == 1), swap=None)
+                     ninja=(v == 1), swap=None, driver=driver)
             if j["ninja"]:
                 ks = swappable(c)
                 if ks and rng.random() < 0.5: j["swap"] = rng.choice(ks)
@@ -722,7 +767,9 @@ def run(pid, tier, seed):
     t1 = time.time()
     log("[C17] TLC: %d distinct manifest ASTs (%s) in %.0fs; all specification invariants hold" % (
         len(cases), ", ".join("%s %s" % (k, v.get("cases", v.get("new_cases"))) for k, v in info.items()), t1 - t0))
-    jobs = make_jobs(cases, tier, seed, llbuild, wd)
+    driver = b + "/harness/ninja_load_driver"
+    if not os.path.exists(driver): raise vlib.Infra("harness/ninja_load_driver was not built")
+    jobs = make_jobs(cases, tier, seed, llbuild, wd, driver)
     results = run_jobs(jobs)
     t2 = time.time()
     errs = [r for r in results if r.get("error")]
@@ -778,7 +825,7 @@ def run(pid, tier, seed):
     return dict(level="translation_validation", coverage=cov, violations=violations,
                 assumptions=["manifests are drawn from the bounded family of spec/fn/NinjaEval.tla (<=2 rules, <=2 build statements, <=3 file-level bindings, <=3 build-level and <=4 rule-level bindings, references nested <=2, <=2 include/subninja files); statements where a file-level variable is re-bound after a build statement that reads it through a rule variable are not compared (property's exclusion)",
                              "lexical matters (token boundaries, keywords, comments) and the shell-quoting function itself are decided by fn/NinjaLex and fn/ShellQuote; here path lists are compared modulo quoting style",
-                             "rspfile / rspfile_content are evaluated by the specification but `load-manifest` does not print them"])
+                             "rspfile / rspfile_content are not printed by `load-manifest`; they are read from the loaded manifest in-process (harness/ninja_load_driver)"])
 
 def replay(pid, path):
     obj = json.load(open(path))
@@ -788,7 +835,7 @@ def replay(pid, path):
     wd = vlib.scratch("%s_replay" % pid)
     still = 0
     for i, ex in enumerate(obj["examples"]):
-        r = do_job(dict(id=i, case=ex["case"], vseed=ex["vseed"], style=ex["style"], llbuild=llbuild, wd=wd, ninja=False, swap=None))
+        r = do_chunk([dict(id=i, case=ex["case"], vseed=ex["vseed"], style=ex["style"], llbuild=llbuild, wd=wd, ninja=False, swap=None, driver=b + "/harness/ninja_load_driver")])[0]
         hit = [t for fp, t in r["bad"] if fp == obj["fingerprint"]]
         if hit:
             still += 1
